@@ -87,7 +87,6 @@ var _ ast.Field
 //@ assume-nonnil-boxed *ast.Field
 //@ assume-nonnil-boxed *ast.InlineFragment
 //@ assume-nonnil-boxed *ast.FragmentSpread
-//@ assume-nonnil-field ast.Value.ExpectedType
 //@ assume-nonnil-field ast.ArgumentDefinition.Type
 //@ assume-nonnil-field ast.FieldDefinition.Type
 //@ define wfF(f *Formatter) bool = f != nil && f.writer != nil && (f.schema != nil ==> forallT(k, string, has(f.schema.Types, k) ==> f.schema.Types[k] != nil))
